@@ -98,6 +98,12 @@ Fixpoint arrive_flight (a : actor) (ok : bool) (fs : list flight) : list flight 
            (f :: r', match f_stat f with Transit => true | Arrived _ => ov end)
   end.
 
+(* sendLoop.sendOne: `if resp.StatusCode/100 != 2 { return fmt.Errorf("bad response status ...") }`
+   (Go integer division truncates): the delivery succeeded iff the final response status is 2xx.
+   The harness writes `Arrive a (status_ok st)` and log entries `(batch, status_ok st)` with the
+   status its fake Alertmanager answered, so this function is what the real counters are compared with. *)
+Definition status_ok (st : Z) : bool := Z.quot st 100 =? 2.
+
 (* func (s *sendLoop) add(alerts ...*Alert) *)
 Definition do_add (c : cfg) (s : st) (al : list alert) : st :=
   if stopped s then s else                                   (* select { case <-s.stopped: return } *)
